@@ -64,6 +64,7 @@ type HarnessResult struct {
 	Intrinsics   map[string]bool
 	Forks        int64
 	Truncated    bool
+	EarlyStop    bool // stopped because enough counterexamples were found (see ExploreOpts.StopOnFindings)
 	BranchQ      int64
 	CrossChecked int64
 	CrossUnknown int64
@@ -87,6 +88,10 @@ type ExploreOpts struct {
 	SampleCap  int
 	Cfg        Config
 	FindingCap int // per (label,class)
+	// StopOnFindings: stop scheduling new paths once some (kind,label,class) has FindingCap
+	// definite counterexamples: a broken tree can blow the path count up (a loop over a symbolic
+	// value in new code) and the counterexamples in hand are enough to report.
+	StopOnFindings bool
 	Progress   bool
 }
 
@@ -183,6 +188,10 @@ func Explore(prog *Program, harness string, opts ExploreOpts) (*HarnessResult, e
 				if findingCount[k] < opts.FindingCap {
 					findingCount[k]++
 					res.Findings = append(res.Findings, f)
+					if opts.StopOnFindings && !f.Unknown && findingCount[k] >= opts.FindingCap && (len(work) > 0 || active > 0) {
+						res.EarlyStop = true
+						stop = true
+					}
 				}
 			}
 			if len(res.Samples) < opts.SampleCap && pr.End == "ok" && len(pr.Inputs) > 0 {
